@@ -8,7 +8,7 @@
     values), every combination of options, every grace period and interval, every fault plan and
     cancellation point, every clock. [file s k] is the value of the terminal key k.
     [jt o clk s0 k] = deleting k is justified at one of the readings: exists i, justified o (clk i) s0 k. *)
-From CM Require Import Lib.Str Lib.CleanSyntax Gen.Consts Clean.Model Clean.Proofs Clean.Prog Clean.Check Clean.SpecProofs Clean.Concurrent Clean.Interfere Clean.Effective Clean.EffectiveCerts Clean.Kill Clean.InterfereSeq Clean.ConcurrentKill Clean.ConcurrentForeign Clean.Final.
+From CM Require Import Lib.Str Lib.CleanSyntax Gen.Consts Clean.Model Clean.Proofs Clean.Prog Clean.Check Clean.SpecProofs Clean.Concurrent Clean.Interfere Clean.Effective Clean.EffectiveCerts Clean.Kill Clean.InterfereSeq Clean.ConcurrentKill Clean.ConcurrentForeign Clean.Final Clean.Final2.
 From Coq Require Import String Ascii.
 Open Scope Z_scope.
 
@@ -516,6 +516,29 @@ Theorem C18_monitor_sound_live_assets_under_interference : forall e fs o clk t0 
   diff_ok_f (model_case_i e fs o clk t0 t1 s0 t) (s0f (model_case_i e fs o clk t0 t1 s0 t)) (base ++ suf) = true.
 Proof. exact monitor_sound_live_assets. Qed.
 Print Assumptions C18_monitor_sound_live_assets_under_interference.
+
+(** the per-run clauses ([runs_ok]: a run that deletes goes on to store the record; a run that returns nil has stored it or done
+    no work; a record more recent than the interval, or dated in the future, means no work) on the same observation, whatever the
+    others do as long as they leave last_clean.json alone: every path through the work ends in the Store of the record *)
+Theorem C18_monitor_runs_ok_under_interference : forall e fs o clk t0 t1 s0 t,
+  (forall i, clk i <= t1) -> (forall i f, In (i, f) fs -> touches spec_last_clean f = false) ->
+  runs_ok (model_case_i e fs o clk t0 t1 s0 t) (c_runs (model_case_i e fs o clk t0 t1 s0 t)) (rec0 s0) = true.
+Proof. exact interference_runs_ok_untouched_record. Qed.
+Print Assumptions C18_monitor_runs_ok_under_interference.
+
+(** hence the monitor's verdict on the model under interference IS its difference clause: the only clause the model can fail is
+    [diff_ok_f] on a key inside the cleaned namespaces that another actor wrote -- the check-then-delete window
+    (C18_foreign_writer_refuted, known finding); everything else of [spec_ok] is proved for every foreign history *)
+Theorem C18_monitor_verdict_under_interference_is_the_difference_clause : forall e fs o clk t0 t1 s0 t,
+  (forall i, clk i <= t1) -> (forall i f, In (i, f) fs -> touches spec_last_clean f = false) ->
+  let c := model_case_i e fs o clk t0 t1 s0 t in
+  spec_ok c =
+  match all_fops c with
+  | [] => forallb (diff_ok c) (map fst (c_s0 c) ++ map fst (c_s1 c))
+  | _ => forallb (diff_ok_f c (s0f c)) (map fst (c_s0 c) ++ map fst (s0f c) ++ map fst (c_s1 c))
+  end.
+Proof. exact interference_spec_ok_is_diff. Qed.
+Print Assumptions C18_monitor_verdict_under_interference_is_the_difference_clause.
 
 (** the monitor on a KILLED run (the clauses added with the kill: expiry event in [lock_trace], exemption in [runs_ok], replay of
     the first n calls): the observation of a cleaner that dies when its call n begins, inside the locked part -- the first n calls
@@ -1099,3 +1122,12 @@ Example ex_killed_monitor_hyps :
   (1 <= 12 < List.length log)%nat /\ hd_error log = Some (Ev KLock spec_lock true) /\
   spec_ok (killed_case ex_env 12 ex_opts_ni (at_ T) T T ex_store2 0) = true.
 Proof. vm_compute. repeat split; try reflexivity; apply Nat.leb_le; reflexivity. Qed.
+
+(** the monitor on the model under interference: a renewal stored before the cleaner's second listing of the folder (call 8)
+    passes; the same renewal just before the Delete of the folder (call 10) is lost and the monitor says so -- through its
+    difference clause, the only one that can fail (the others are theorems) *)
+Example ex_monitor_under_interference :
+  touches spec_last_clean (FPut ex_renewed (File 77 (crt (T + 90 * day)))) = false /\
+  spec_ok (model_case_i ex_env [(8%nat, FPut ex_renewed (File 77 (crt (T + 90 * day))))] ex_opts0 (at_ T) T T ex_fs_store 0) = true /\
+  spec_ok (model_case_i ex_env [(10%nat, FPut ex_renewed (File 77 (crt (T + 90 * day))))] ex_opts0 (at_ T) T T ex_fs_store 0) = false.
+Proof. vm_compute. repeat split; reflexivity. Qed.
